@@ -417,7 +417,7 @@ fn predicates(kinds: &[&'static str], tier: Tier) -> Vec<P> {
         out.push(P::Not(Box::new(x.clone())));
     }
     // depth 2: all pairs of a thinned atom list (every 3rd in quick)
-    let step = tier.pick(6, 1);
+    let step = tier.pick(6, 2);
     let thin: Vec<P> = a.iter().step_by(step).cloned().collect();
     for x in &thin {
         for y in &thin {
@@ -427,7 +427,7 @@ fn predicates(kinds: &[&'static str], tier: Tier) -> Vec<P> {
     }
     if tier == Tier::Thorough {
         // depth 3 on a small atom list
-        let small: Vec<P> = a.iter().step_by(9).cloned().collect();
+        let small: Vec<P> = a.iter().step_by(17).cloned().collect();
         for x in &small {
             for y in &small {
                 for z in &small {
@@ -657,7 +657,7 @@ pub fn run(ctx: &Ctx) -> Report {
     let third: Vec<&ColType> = ct.iter().filter(|c| matches!(c.kind, "text" | "opt-int" | "bool")).collect();
     let mut work: Vec<(String, Work)> = vec![];
     // struct types: (numeric, numeric, third); quick thins the numeric x numeric product
-    let step = ctx.tier.pick(9, 1);
+    let step = ctx.tier.pick(9, 3);
     let mut k = 0;
     for a in &numeric {
         for b in &numeric {
